@@ -26,6 +26,8 @@ type G struct {
 	blocked string // what it is parked on ("" = runnable or running)
 	name    string // function it was started with
 	created int    // number of scheduling steps before creation
+	vc      vclock // happens-before vector clock (race monitor)
+	wakeVC  vclock // clock to join when this goroutine resumes from a rendezvous
 }
 
 type sched struct {
@@ -44,13 +46,14 @@ type sched struct {
 	preemptBud int
 	// observers
 	onSwitch func(from, to *G)
+	race     *raceMon
 }
 
 type deadlock struct{ msg string }
 
 func newSched(px *pathCtx) *sched {
 	s := &sched{px: px, mutexq: map[*value][]*G{}}
-	s.mainG = &G{id: 0, wake: make(chan struct{}, 1), main: true, name: "harness"}
+	s.mainG = &G{id: 0, wake: make(chan struct{}, 1), main: true, name: "harness", vc: vclock{1}}
 	s.cur = s.mainG
 	s.all = []*G{s.mainG}
 	return s
@@ -86,6 +89,10 @@ func (s *sched) park(why string) {
 		panic(pathAbort{})
 	}
 	s.cur = me
+	if me.wakeVC != nil {
+		me.vc.join(me.wakeVC)
+		me.wakeVC = nil
+	}
 }
 
 // handOff gives the baton to the next runnable goroutine. If none exists the
@@ -152,6 +159,9 @@ func (s *sched) yield() {
 
 func (s *sched) spawn(name string, f func()) {
 	g := &G{id: len(s.all), wake: make(chan struct{}, 1), name: name, created: s.Switches}
+	g.vc = s.cur.vc.copy()
+	g.vc.set(g.id, 1)
+	s.cur.tick()
 	s.all = append(s.all, g)
 	s.live++
 	s.ready(g)
@@ -283,13 +293,16 @@ type waiter struct {
 	ok   *bool
 	sel  *int // select: which case fired
 	idx  int
-	done *bool // shared between the waiters of one select
+	done *bool  // shared between the waiters of one select
+	vc   vclock // the waiter's clock when it started waiting
 }
 
 type gchan struct {
-	id     int
-	cap    int
-	buf    []value
+	id      int
+	cap     int
+	bufVC   []vclock // sender clocks of the buffered values
+	closeVC vclock
+	buf     []value
 	closed bool
 	recvq  []*waiter
 	sendq  []*waiter
@@ -324,11 +337,20 @@ func (s *sched) trySend(c *gchan, v value) bool {
 	if w := popLive(&c.recvq); w != nil {
 		*w.slot = v
 		*w.ok = true
+		// the send happens before the receive completes; for an unbuffered
+		// channel the receive also happens before the send completes
+		w.g.wakeVC = s.cur.vc.copy()
+		if c.cap == 0 {
+			s.cur.vc.join(w.vc)
+		}
+		s.cur.tick()
 		s.fire(w)
 		return true
 	}
 	if len(c.buf) < c.cap {
 		c.buf = append(c.buf, v)
+		c.bufVC = append(c.bufVC, s.cur.vc.copy())
+		s.cur.tick()
 		return true
 	}
 	return false
@@ -338,18 +360,29 @@ func (s *sched) tryRecv(c *gchan) (v value, ok, done bool) {
 	if len(c.buf) > 0 {
 		v = c.buf[0]
 		c.buf = c.buf[1:]
+		if len(c.bufVC) > 0 {
+			s.cur.vc.join(c.bufVC[0])
+			c.bufVC = c.bufVC[1:]
+		}
 		if w := popLive(&c.sendq); w != nil {
 			c.buf = append(c.buf, w.val)
+			c.bufVC = append(c.bufVC, w.vc)
 			s.fire(w)
 		}
 		return v, true, true
 	}
 	if w := popLive(&c.sendq); w != nil {
 		v = w.val
+		s.cur.vc.join(w.vc)
+		if c.cap == 0 {
+			w.g.wakeVC = s.cur.vc.copy()
+		}
+		s.cur.tick()
 		s.fire(w)
 		return v, true, true
 	}
 	if c.closed {
+		s.cur.vc.join(c.closeVC)
 		return nil, false, true
 	}
 	return nil, false, false
@@ -363,7 +396,7 @@ func (s *sched) send(c *gchan, v value) {
 	if s.trySend(c, v) {
 		return
 	}
-	c.sendq = append(c.sendq, &waiter{g: s.cur, val: v})
+	c.sendq = append(c.sendq, &waiter{g: s.cur, val: v, vc: s.cur.vc.copy()})
 	s.park(fmt.Sprintf("chan send #%d", c.id))
 	if c.closed {
 		panic(rtErr("send on closed channel"))
@@ -383,7 +416,7 @@ func (s *sched) recv(c *gchan, zeroV value) (value, bool) {
 	}
 	var slot value
 	var ok bool
-	c.recvq = append(c.recvq, &waiter{g: s.cur, slot: &slot, ok: &ok})
+	c.recvq = append(c.recvq, &waiter{g: s.cur, slot: &slot, ok: &ok, vc: s.cur.vc.copy()})
 	s.park(fmt.Sprintf("chan receive #%d", c.id))
 	if !ok {
 		return zeroV, false
@@ -400,12 +433,15 @@ func (s *sched) closeChan(c *gchan) {
 		panic(rtErr("close of closed channel"))
 	}
 	c.closed = true
+	c.closeVC = s.cur.vc.copy()
+	s.cur.tick()
 	for {
 		w := popLive(&c.recvq)
 		if w == nil {
 			break
 		}
 		*w.ok = false
+		w.g.wakeVC = c.closeVC
 		s.fire(w)
 	}
 	for {
@@ -472,7 +508,7 @@ func doSelect(fr *frame, instr *ssa.Select) value {
 				continue
 			}
 			any = true
-			w := &waiter{g: s.cur, sel: &chosen, idx: i, done: &done}
+			w := &waiter{g: s.cur, sel: &chosen, idx: i, done: &done, vc: s.cur.vc.copy()}
 			if st.Dir == types.RecvOnly {
 				w.slot, w.ok = &recvVals[i], &oks[i]
 				c.recvq = append(c.recvq, w)
@@ -526,6 +562,7 @@ func (s *sched) lock(m *value) {
 		s.park("mutex")
 	}
 	st[0] = int32(1)
+	s.acquireAddr(m)
 }
 
 func (s *sched) unlock(m *value) {
@@ -534,6 +571,7 @@ func (s *sched) unlock(m *value) {
 		panic(targetPanic{"sync: unlock of unlocked mutex"})
 	}
 	st[0] = int32(0)
+	s.releaseAddr(m)
 	if q := s.mutexq[m]; len(q) > 0 {
 		g := q[0]
 		s.mutexq[m] = q[1:]
